@@ -304,3 +304,9 @@ pub fn set_link_and_offset(state: &mut TrainState, path_tpc: &PathTpc) -> anyhow
 
     Ok(())
 }
+
+// Verification hook (inert unless built with `--cfg nrel_altrios_verif` or under `cargo kani`).
+#[cfg(any(kani, nrel_altrios_verif))]
+mod verif_hook {
+    include!(concat!(env!("NREL_ALTRIOS_VERIF_DIR"), "/hooks/train__train_state.rs"));
+}
